@@ -28,6 +28,16 @@ Theorem C15_data_limits : forall fuel o dc r trace d r', rstate_ok r -> data_loo
 Proof. exact data_loop_spec. Qed.
 Print Assumptions C15_data_limits.
 
+(** the checker that judges the IMPLEMENTATION's reply to each DATA payload in the correspondence runs accepts the model,
+    for every reader state and stream: 250 only within the size limit and the hop limit, 552 only over the size limit *)
+Theorem C15_verdict_checker_sound : forall fuel o dc r trace d r', rstate_ok r -> data_loop fuel o dc r trace = (d, r') ->
+  match d with
+  | D_eod _ _ seen => data_verdict_ok (maxbytes o) seen 250 = true
+  | D_toobig l seen => forall rest, data_verdict_ok (maxbytes o) (seen ++ l :: rest) 552 = true
+  | _ => True
+  end.
+Proof. exact data_verdict_sound. Qed.
+Print Assumptions C15_verdict_checker_sound.
 (** SIZE= above control/databytes: MAIL FROM is not accepted *)
 Theorem C15_size_parameter : forall o s arg len evs s', h_from o s arg len = (evs, H0, s') ->
   o_databytes o = 0%N \/ (thisbytes s' <= o_databytes o)%N.
